@@ -132,12 +132,15 @@ theorem pv_ni : ∀ v : GV, v.plainIn = true → pv td c ρ₁ false true v = pv
     simp only [GV.plainIn] at h
     simp only [pv, hw, Bool.and_false, Bool.false_eq_true, if_false]; exact pvL_ni vs h
   | .map kvs, h => by
-    simp only [GV.plainIn] at h
-    simp only [pv, hw, Bool.and_false, Bool.false_eq_true, if_false]; exact pvKV_ni kvs h
+    simp only [GV.plainIn, Bool.and_eq_true] at h
+    simp only [pv, hw, Bool.and_false, Bool.false_eq_true, if_false]; exact pvKV_ni kvs h.2
   | .struct fs, h => by
     simp only [GV.plainIn] at h
     simp only [pv, hw, Bool.and_false, Bool.false_eq_true, if_false]; exact pvF_ni fs h
   | .tm _ _ fs, h => by
+    simp only [GV.plainIn] at h
+    simp only [pv, hw, Bool.and_false, Bool.false_eq_true, if_false]; exact pvF_ni fs h
+  | .sh _ fs, h => by
     simp only [GV.plainIn] at h
     simp only [pv, hw, Bool.and_false, Bool.false_eq_true, if_false]; exact pvF_ni fs h
 theorem pvL_ni : ∀ vs : List GV, GV.plainInL vs = true → pvL td c ρ₁ true vs = pvL td c ρ₂ true vs
@@ -194,12 +197,15 @@ theorem pa_ni (hp : (c.verb == 'p') = false) (v0 : GV) (h : v0.plainTop = true) 
       simp only [GV.plainIn] at h
       simp only [pv, Bool.not_true, Bool.false_and, Bool.false_eq_true, if_false]; exact pvL_ni hc hF c hw ρ₁ ρ₂ vs h
     | map kvs =>
-      simp only [GV.plainIn] at h
-      simp only [pv, Bool.not_true, Bool.false_and, Bool.false_eq_true, if_false]; exact pvKV_ni hc hF c hw ρ₁ ρ₂ kvs h
+      simp only [GV.plainIn, Bool.and_eq_true] at h
+      simp only [pv, Bool.not_true, Bool.false_and, Bool.false_eq_true, if_false]; exact pvKV_ni hc hF c hw ρ₁ ρ₂ kvs h.2
     | struct fs =>
       simp only [GV.plainIn] at h
       simp only [pv, Bool.not_true, Bool.false_and, Bool.false_eq_true, if_false]; exact pvF_ni hc hF c hw ρ₁ ρ₂ fs h
     | tm o vv fs =>
+      simp only [GV.plainIn] at h
+      simp only [pv, Bool.not_true, Bool.false_and, Bool.false_eq_true, if_false]; exact pvF_ni hc hF c hw ρ₁ ρ₂ fs h
+    | sh k fs =>
       simp only [GV.plainIn] at h
       simp only [pv, Bool.not_true, Bool.false_and, Bool.false_eq_true, if_false]; exact pvF_ni hc hF c hw ρ₁ ρ₂ fs h
 
@@ -285,7 +291,8 @@ theorem C14_paths : ∀ p ∈ knownPaths, p ≠ ("json", Pos.mapKey) →
 /-- `encoding/json` takes a map key of string kind from the raw string before it looks for
 `TextMarshaler` (encode.go `resolveKeyName`): an opaque string used as a JSON object key is written raw,
 whatever the type implements.  (No built-in configuration uses an opaque key.) -/
-theorem C14_json_mapkey_raw (td : TD) (s : String) : pathText td "json" .mapKey s = s := rfl
+-- (definitional: a row of the hand table `pathConsult`; not counted as an obligation)
+theorem def_json_mapkey_raw (td : TD) (s : String) : pathText td "json" .mapKey s = s := rfl
 
 def C14_paths_full : Prop := ∀ p ∈ knownPaths, ∀ s₁ s₂ : String, pathText realTD p.1 p.2 s₁ = pathText realTD p.1 p.2 s₂
 
@@ -295,7 +302,8 @@ theorem C14_paths_full_fails : ¬ C14_paths_full := by
   revert this; decide
 
 /-- the explicit conversion still returns the secret -/
-theorem C14_conversion_returns_secret (td : TD) (s : String) : pathText td "conv" .value s = s := rfl
+-- (definitional: `pathConsult "conv" = [none]`; the clause is observed by the harness, `string(s)`; not counted)
+theorem def_conversion_returns_secret (td : TD) (s : String) : pathText td "conv" .value s = s := rfl
 
 /-- unmarshalling stores the written string unchanged: the type has no `UnmarshalText` (mapstructure
 then assigns by kind), on values or pointers -/
@@ -304,7 +312,8 @@ theorem C14_unmarshal_keeps : (realTD.find "UnmarshalText" true) = none ∧ (rea
 
 /-- plain positions (field, pointer, map value, slice element, nested or plainly squashed struct, a
 nested struct with its own `Unmarshal`) keep the secret -/
-theorem C14_unmarshal_plain (s : String) : plainStored s = s := rfl
+-- (definitional: `plainStored s := s`; there is no model of the decode path — the clause is carried by the `op unm` differential; not counted)
+theorem def_unmarshal_plain (s : String) : plainStored s = s := rfl
 
 /-- regenerated fact: `unmarshalerEmbeddedStructsHookFunc` no longer feeds the marshalled (redacted)
 form of a squashed struct back into the map (fails on a tree where it does) -/
@@ -312,15 +321,33 @@ theorem C14_squash_hook_keeps_fields : SquashHook.remarshals = false := by decid
 
 /-- **unmarshalling stores the secret unchanged**, including through a field tagged `,squash` whose
 struct implements `confmap.Unmarshaler` -/
-theorem C14_unmarshal_full (s : String) : plainStored s = s ∧ squashHookStored SquashHook.remarshals realTD s = s := by
-  refine ⟨rfl, ?_⟩
+theorem C14_unmarshal_squash_keeps (s : String) : squashHookStored SquashHook.remarshals realTD s = s := by
   simp [squashHookStored, C14_squash_hook_keeps_fields, plainStored]
 
 /-- why the repair was needed: a hook that re-decodes from the marshalled form stores the marker,
 whatever was written (even the empty string) -/
-theorem C14_unmarshal_remarshal_stores_marker (s : String) : squashHookStored true realTD s = Opaque.marker := rfl
+theorem def_unmarshal_remarshal_stores_marker (s : String) : squashHookStored true realTD s = Opaque.marker := rfl
 
 /-! ## config-map encoder (`confmap.Conf.Marshal`) -/
+
+theorem pathText_yaml_const {td : TD} (hc : td.Const) (hT : (td.find "MarshalText" false).isSome = true) (s₁ s₂ : String) :
+    pathText td "yaml" .value s₁ = pathText td "yaml" .value s₂ := by
+  simp only [pathText, pathConsult, resolve]
+  cases h1 : td.find "MarshalYAML" false with
+  | some m => simp only [eval_const (hc m (find_mem h1)) s₁ s₂]
+  | none =>
+    cases h2 : td.find "MarshalText" false with
+    | some m => simp only [eval_const (hc m (find_mem h2)) s₁ s₂]
+    | none => simp [h2] at hT
+
+theorem yamlF_ni {td : TD} (hc : td.Const) (hT : (td.find "MarshalText" false).isSome = true) (ρ₁ ρ₂ : Nat → String) :
+    ∀ fs : List (FieldInfo × GV), yamlF td ρ₁ fs = yamlF td ρ₂ fs
+  | [] => rfl
+  | (fi, v) :: fs => by
+    simp only [yamlF, yamlF_ni hc hT ρ₁ ρ₂ fs]
+    cases v with
+    | opq i => simp only [pathText_yaml_const hc hT (ρ₁ i) (ρ₂ i)]
+    | _ => rfl
 
 section encNI
 variable {td : TD} (hc : td.Const) (hT : (td.find "MarshalText" false).isSome = true)
@@ -343,6 +370,7 @@ theorem isZero_ni : ∀ v : GV, isZero ρ₁ v = isZero ρ₂ v
   | .nilMap => rfl
   | .struct fs => by simp only [isZero, isZeroF_ni fs]
   | .tm _ _ fs => by simp only [isZero, isZeroF_ni fs]
+  | .sh _ fs => by simp only [isZero, isZeroF_ni fs]
 theorem isZeroL_ni : ∀ vs : List GV, isZeroL ρ₁ vs = isZeroL ρ₂ vs
   | [] => rfl
   | v :: vs => by simp only [isZeroL, isZero_ni v, isZeroL_ni vs]
@@ -370,6 +398,8 @@ theorem enc_ni : ∀ v : GV, enc td ρ₁ v = enc td ρ₂ v
   | .nilMap => rfl
   | .struct fs => by simp only [enc, encF_ni fs []]
   | .tm _ vv fs => by cases vv <;> simp only [enc, encF_ni fs [], if_true, Bool.false_eq_true, if_false]
+  | .sh .marshaler fs => by simp only [enc, encF_ni fs []]
+  | .sh .yaml fs => by simp only [enc, yamlF_ni hc hT ρ₁ ρ₂ fs]
 theorem encL_ni : ∀ vs : List GV, encL td ρ₁ vs = encL td ρ₂ vs
   | [] => rfl
   | v :: vs => by simp only [encL, enc_ni v, encL_ni vs]
@@ -426,6 +456,12 @@ theorem C14_encode_leaf_marker (ρ : Nat → String) (i : Nat) : enc realTD ρ (
 theorem C14_encode_noninterference_real (ρ₁ ρ₂ : Nat → String) (he : ∀ i, (ρ₁ i == "") = (ρ₂ i == "")) (v : GV) :
     enc realTD ρ₁ v = enc realTD ρ₂ v :=
   C14_encode_noninterference realTD C14_methods_recv_free (by decide) ρ₁ ρ₂ he v
+
+theorem yamlF_typed (td : TD) (ρ : Nat → String) : ∀ fs : List (FieldInfo × GV), Any.typedAreArraysKV (yamlF td ρ fs) = true
+  | [] => rfl
+  | (fi, v) :: fs => by
+    simp only [yamlF, Any.typedAreArraysKV, yamlF_typed td ρ fs, Bool.and_true]
+    cases v <;> rfl
 
 theorem taKV_append (a b : List (String × Any)) :
     Any.typedAreArraysKV (a ++ b) = (Any.typedAreArraysKV a && Any.typedAreArraysKV b) := by
@@ -502,6 +538,18 @@ theorem enc_typed : ∀ (v : GV) (a : Any), enc td ρ v = .ok a → a.typedAreAr
       simp only [hl, bind, Except.bind, pure, Except.pure, Except.ok.injEq] at h
       subst h
       simp only [Any.typedAreArrays]; exact encF_typed fs [] m rfl hl
+  | .sh .marshaler fs, a, h => by
+    simp only [enc] at h
+    cases hl : encF td ρ fs [] with
+    | error e => simp [hl, bind, Except.bind] at h
+    | ok m =>
+      simp only [hl, bind, Except.bind, pure, Except.pure, Except.ok.injEq] at h
+      subst h
+      simp only [Any.typedAreArrays]; exact encF_typed fs [] m rfl hl
+  | .sh .yaml fs, a, h => by
+    simp only [enc, Except.ok.injEq] at h
+    subst h
+    simp only [Any.typedAreArrays]; exact yamlF_typed td ρ fs
   | .tm o vv fs, a, h => by
     simp only [enc] at h
     cases vv with
@@ -580,7 +628,7 @@ theorem C14_encode_typed_values_are_arrays (td : TD) (hT : (td.find "MarshalText
     (ρ : Nat → String) (v : GV) (a : Any) (h : enc td ρ v = .ok a) : a.typedAreArrays = true :=
   enc_typed hT ρ v a h
 
-theorem C14_encode_array_passthrough (td : TD) (ρ : Nat → String) (vs : List GV) :
+theorem def_encode_array_passthrough (td : TD) (ρ : Nat → String) (vs : List GV) :
     enc td ρ (.array vs) = .ok (.typed (.array vs)) := rfl
 
 /-- **Unexported fields** never reach the configuration map: whatever such a field holds (an opaque
